@@ -173,6 +173,27 @@ func runC16x(c c16Case, info *c16Info) *vstat.Failure {
 			// fragments of very different lengths (the data after a truncation may be
 			// shorter or longer than the fragment flushed before it)
 			appendData(fmt.Sprintf("F%d%s", seq, strings.Repeat("_", (st.N%4)*(st.N%4)*6)))
+		case "frag-cr":
+			// a fragment whose last byte so far is a carriage return
+			seq++
+			appendData(fmt.Sprintf("F%d\r", seq))
+		case "cr-truncate-newline":
+			// a fragment ending in a carriage return is flushed by a truncation, and
+			// the first byte of the new generation is a line feed
+			seq++
+			appendData(fmt.Sprintf("F%d\r", seq))
+			if f := settle(si, op+":fragment"); f != nil {
+				return f
+			}
+			must(os.Truncate(path, 0))
+			endGeneration()
+			if f := settle(si, op+":truncate"); f != nil {
+				return f
+			}
+			appendData("\n")
+		case "blank":
+			// an empty line (completes a pending fragment, or stands alone)
+			appendData("\n")
 		case "complete":
 			seq++
 			appendData(fmt.Sprintf("-c%d\n", seq))
@@ -354,11 +375,11 @@ func c16RunRaw(raw json.RawMessage) *vstat.Failure {
 }
 
 func TestC16(t *testing.T) {
-	st := vstat.New("C16", "histories on a real file tailed through tailer.New (its absolute path, optionally also named by one or two overlapping glob patterns) with harness-controlled wakers: append line / CRLF line / line with bytes that are not UTF-8 / several lines in one write / unterminated fragment / completion of a fragment / a burst of fixed-width records filling the 128 KiB read buffer exactly once or twice, truncate in place, rename+create, copy+truncate, delete, re-create (empty), delete and re-create between two pattern polls (the stream has seen the deletion, the pattern poller has not), replace the file between two stream wakes with pattern polls in between (the pattern poller has seen the path missing, the stream has not), poll without change; the file may pre-exist with content incl. half a line or not exist at first. After every step the tailer is made to observe it (stream wake barrier, pattern poll barrier, log_count) and the delivered lines must equal the model's sequence exactly; finally tailing is stopped. non-trivial = a fragment pending when a generation ends, or >= 2 generation changes; distinct by history")
+	st := vstat.New("C16", "histories on a real file tailed through tailer.New (its absolute path, optionally also named by one or two overlapping glob patterns) with harness-controlled wakers: append line / CRLF line / line with bytes that are not UTF-8 / several lines in one write / unterminated fragment (also one ending in a carriage return) / completion of a fragment / empty line / a burst of fixed-width records filling the 128 KiB read buffer exactly once or twice, truncate in place, rename+create, copy+truncate, delete, re-create (empty), delete and re-create between two pattern polls (the stream has seen the deletion, the pattern poller has not), replace the file between two stream wakes with pattern polls in between (the pattern poller has seen the path missing, the stream has not), poll without change; the file may pre-exist with content incl. half a line or not exist at first. After every step the tailer is made to observe it (stream wake barrier, pattern poll barrier, log_count) and the delivered lines must equal the model's sequence exactly; finally tailing is stopped. non-trivial = a fragment pending when a generation ends, or >= 2 generation changes; distinct by history")
 	st.Assumptions = []string{"a step counts as observed when every live stream and the pattern poller are back in Wake() and log_count matches the model", "every line carries a sequence number, so loss, duplication, merging and reordering are told apart"}
 	st.Run(t, c16RunRaw, func() {
 		ops := []string{"line", "line", "crlf", "multi", "frag", "frag", "complete", "truncate", "rotate", "copytruncate", "delete", "recreate", "poll",
-			"line", "line", "crlf", "multi", "frag", "frag", "complete", "truncate", "rotate", "copytruncate", "delete", "recreate", "poll", "burst", "binary", "binary", "delete-recreate", "replace-between-wakes"}
+			"line", "line", "crlf", "multi", "frag", "frag", "complete", "truncate", "rotate", "copytruncate", "delete", "recreate", "poll", "burst", "binary", "binary", "delete-recreate", "replace-between-wakes", "frag-cr", "blank", "blank", "cr-truncate-newline"}
 		var drop []string
 		if st.IsLive("C16-1") { // fragment re-delivered after truncation
 			drop = append(drop, "C16-1")
